@@ -8,12 +8,12 @@ from common import *
 import core
 
 
-def run(pid, tier, spec, replay_file=None):
+def run(pid, tier, spec, replay_file=None, write=True, race=True, clear=True):
     t0 = time.time()
-    clear_replays(pid) if not replay_file else None
+    clear_replays(pid) if (not replay_file and clear) else None
     res = {'mc': [], 'states': 0, 'transitions': 0, 'generated': {}}
     core.model_check(spec.get('mc', []), tier, res)
-    harness = build_harness(race=True)
+    harness = build_harness(race=race)
     sessions = spec['quick_sessions'] if tier == 'quick' else spec['thorough_sessions']
     seeds = [seed() * 100 + i for i in range(sessions)]
     if replay_file:
@@ -34,10 +34,10 @@ def run(pid, tier, spec, replay_file=None):
             env = dict(os.environ, GORACE='halt_on_error=0 exitcode=0 log_path=%s' % racelog)
             p = subprocess.run([harness, 'freerun', '-seed', str(s), '-clients', str(spec['clients']), '-per', str(spec['per']),
                                 '-out', trace, '-summary', summ], env=env, stdout=subprocess.PIPE, stderr=subprocess.STDOUT,
-                               text=True, timeout=1200)
+                               text=True, timeout=spec.get('session_timeout', 600))
             if p.returncode != 0 or not os.path.exists(summ):
                 if 'DATA RACE' in p.stdout or 'fatal error' in p.stdout or 'panic:' in p.stdout:
-                    path = save_replay(pid, 's%d-crash' % s, {'property': pid, 'seed': s, 'output': p.stdout[-8000:]})
+                    path = save_replay(pid, 'free-s%d-crash' % s, {'property': pid, 'seed': s, 'output': p.stdout[-8000:]})
                     violations.append(('the process crashed', path))
                     continue
                 raise Infra('free-running session failed:\n' + p.stdout[-3000:])
@@ -57,10 +57,10 @@ def run(pid, tier, spec, replay_file=None):
                                 'events': [json.loads(x) for x in lines[:20]]})
             if 'DATA RACE' in races:
                 first = races.split('==================')[1] if '==================' in races else races
-                path = save_replay(pid, 's%d-race' % s, {'property': pid, 'seed': s, 'race_reports': races[:20000]})
+                path = save_replay(pid, 'free-s%d-race' % s, {'property': pid, 'seed': s, 'race_reports': races[:20000]})
                 violations.append(('data race: ' + ' / '.join(re.findall(r'^\s+(github.com/vicanso/pike\S+)\(', first, re.M)[:3]), path))
             if sm.get('integrity'):
-                path = save_replay(pid, 's%d-integrity' % s, {'property': pid, 'seed': s, 'integrity': sm['integrity'][:50]})
+                path = save_replay(pid, 'free-s%d-integrity' % s, {'property': pid, 'seed': s, 'integrity': sm['integrity'][:50]})
                 violations.append(('responses altered or served for another key: %s' % sm['integrity'][0], path))
             invs = list(core.ALL_INVS)
             for _ in range(4):
@@ -76,7 +76,7 @@ def run(pid, tier, spec, replay_file=None):
                     known[match['id']] = match
                     invs.remove(inv)      # the rest of this session is judged by the other predicates
                     continue
-                path = save_replay(pid, 's%d-trace' % s, {'property': pid, 'seed': s, 'invariant': inv, 'signature': sig,
+                path = save_replay(pid, 'free-s%d-trace' % s, {'property': pid, 'seed': s, 'invariant': inv, 'signature': sig,
                                                           'trace_tail': evs[max(0, ln - 80):]})
                 violations.append(('%s violated on the recorded events' % inv, path))
                 break
@@ -95,5 +95,7 @@ def run(pid, tier, spec, replay_file=None):
         'race_detector': 'harness and pike compiled with -race; any report is a violation',
         'explanation': __doc__,
     }
+    if not write:
+        return len(violations), coverage
     write_evidence(pid, tier, 'model_checking', coverage, time.time() - t0, len(violations), spec.get('assumptions', []))
     return 1 if violations else 0
